@@ -121,4 +121,7 @@ def classify(only_r, only_a, pr, texts=()):
         return "versioned"
     if any("@@" in t for t in texts):
         return "alias-of-versioned"
+    # the generator names aliases <function>_al<k> / _alias<k> / _nal<k>
+    if any(re.search(r"_(al|alias|nal)\d*$", x.split("@")[0]) for x in only_r + only_a):
+        return "alias-group-member"
     return "other"
